@@ -24,19 +24,29 @@ fn hit(name: &'static str) -> bool { CALLS.with(|c| c.borrow_mut().push(name)); 
 struct Query;
 
 macro_rules! family {
-    (args { $( $name:ident : $t:ty => ( $($v:tt)* ) ; )* } fields { $( $fname:ident : $ft:ty => ( $($fv:tt)* ) ; )* }) => {
+    (args { $( $name:ident : $t:ty => ( $($v:tt)* ) ; )* }
+     fields { $( $fname:ident : $ft:ty => ( $($fv:tt)* ) ; )* }
+     dargs { $( $dname:ident : $dt:ty = ( $($dd:tt)* ) => ( $($dv:tt)* ) ; )* }
+     dfields { $( $dfname:ident : $dft:ty = ( $($dfd:tt)* ) => ( $($dfv:tt)* ) ; )* }) => {
         #[Object(rename_fields = "snake_case", rename_args = "snake_case")]
         impl Query {
             $( async fn $name(&self, #[graphql(validator($($v)*))] v: $t) -> bool { let _ = v; hit(stringify!($name)) } )*
+            $( async fn $dname(&self, #[graphql($($dd)*, validator($($dv)*))] v: $dt) -> bool { let _ = v; hit(stringify!($dname)) } )*
             async fn obj(&self, input: In) -> bool { let _ = input; hit("obj") }
         }
         #[derive(InputObject)]
         #[graphql(rename_fields = "snake_case")]
         struct In {
             $( #[graphql(validator($($fv)*))] $fname: Option<$ft>, )*
+            $( #[graphql($($dfd)*, validator($($dfv)*))] $dfname: $dft, )*
         }
-        const ARGS: &[(&str, &str, &str)] = &[ $( (stringify!($name), stringify!($t), stringify!($($v)*)), )* ];
-        const FIELDS: &[(&str, &str, &str)] = &[ $( (stringify!($fname), stringify!($ft), stringify!($($fv)*)), )* ];
+        // (name, Rust type, validators, default attribute, wrapped in Option by the macro)
+        const ARGS: &[(&str, &str, &str, &str, bool)] = &[
+            $( (stringify!($name), stringify!($t), stringify!($($v)*), "", false), )*
+            $( (stringify!($dname), stringify!($dt), stringify!($($dv)*), stringify!($($dd)*), false), )* ];
+        const FIELDS: &[(&str, &str, &str, &str, bool)] = &[
+            $( (stringify!($fname), stringify!($ft), stringify!($($fv)*), "", true), )*
+            $( (stringify!($dfname), stringify!($dft), stringify!($($dfv)*), stringify!($($dfd)*), false), )* ];
     };
 }
 
@@ -110,6 +120,34 @@ family! {
         f_list_max: Vec<i32> => (list, maximum = 3);
         f_maxitems: Vec<i32> => (max_items = 2);
     }
+    // arguments with a default: every default form x numeric / string-length / list validators
+    dargs {
+        ad_max_i32: i32 = (default = 10) => (maximum = 100);
+        ad_min_i32: i32 = (default) => (minimum = -5);
+        ad_mul_u64: u64 = (default = 3) => (multiple_of = 3);
+        ad_maxlen: String = (default_with = "\"ab\".to_string()") => (max_length = 4);
+        ad_cminlen: String = (default = "abc") => (chars_min_length = 3);
+        ad_list_max: Vec<i32> = (default_with = "vec![1, 2]") => (list, maximum = 3);
+        ad_minitems: Vec<i32> = (default_with = "vec![1, 2]") => (min_items = 2);
+        ad_maxitems: Vec<i32> = (default) => (max_items = 2);
+        ad_opt_max: Option<i32> = (default) => (maximum = 10);
+        ad_bad_dflt: i32 = (default = 500) => (maximum = 100);
+    }
+    // input-object fields with a default (a separate branch of the InputObject derive)
+    dfields {
+        fd_max_i32: i32 = (default = 10) => (maximum = 100);
+        fd_min_i32: i32 = (default) => (minimum = -5);
+        fd_mul_u8: u8 = (default = 6) => (multiple_of = 3);
+        fd_max_f64: f64 = (default = 1.5) => (maximum = 10);
+        fd_maxlen: String = (default = "ab") => (max_length = 4);
+        fd_minlen: String = (default_with = "\"abcd\".to_string()") => (min_length = 3);
+        fd_cmaxlen: String = (default) => (chars_max_length = 2);
+        fd_re_d: String = (default = "12") => (regex = "^[0-9]{2}$");
+        fd_list_max: Vec<i32> = (default_with = "vec![1, 2]") => (list, maximum = 3);
+        fd_maxitems: Vec<i32> = (default) => (max_items = 2);
+        fd_list_maxlen: Vec<String> = (default) => (list, max_length = 3, max_items = 2);
+        fd_opt_max: Option<i32> = (default) => (maximum = 10);
+    }
 }
 
 type S = Schema<Query, EmptyMutation, EmptySubscription>;
@@ -146,9 +184,11 @@ fn gql_type(base: &str, cont: &str) -> String {
     match cont { "plain" => format!("{b}!"), "opt" => b.to_string(), "list" => format!("[{b}!]!"), _ => format!("[{b}!]") }
 }
 
-fn annotation(name: &str, ty: &str, vals: &str, site: &str) -> J {
+fn none_value() -> J { json!({"k": "none", "lit": "", "neg": false, "d": [], "scale": 0, "cp": [], "items": []}) }
+
+fn annotation(name: &str, ty: &str, vals: &str, dflt_attr: &str, wrapped: bool, site: &str) -> J {
     let (base, cont) = type_desc(ty);
-    let cont = if site == "obj" { match cont { "plain" => "opt", "list" => "optlist", c => c } } else { cont };
+    let cont = if wrapped { match cont { "plain" => "opt", "list" => "optlist", c => c } } else { cont };
     let mut list = false;
     let mut out = Vec::new();
     for part in vals.split(',') {
@@ -164,12 +204,61 @@ fn annotation(name: &str, ty: &str, vals: &str, site: &str) -> J {
         };
         out.push(json!({"kind": k, "b": b, "n": n, "re": re}));
     }
-    json!({"name": name, "site": site, "T": base, "cont": cont, "list": list, "vals": out})
+    json!({"name": name, "site": site, "T": base, "cont": cont, "list": list, "vals": out, "dflt_attr": dflt_attr, "dflt": none_value()})
 }
 
+/// A schema default (`defaultValue` of introspection: numbers, plain strings, lists of them, null) as an abstract value.
+fn parse_default(text: &str, top: bool) -> J {
+    let t = text.trim();
+    let mut v = none_value();
+    let o = v.as_object_mut().unwrap();
+    if !top { o.remove("items"); }
+    if t == "null" {
+        o.insert("k".into(), json!("null"));
+    } else if let Some(inner) = t.strip_prefix('[').and_then(|r| r.strip_suffix(']')) {
+        if !top { tool_error("nested list default"); }
+        let items: Vec<J> = if inner.trim().is_empty() { vec![] } else { inner.split(',').map(|x| parse_default(x, false)).collect() };
+        o.insert("k".into(), json!("list"));
+        o.insert("items".into(), json!(items));
+    } else if let Some(inner) = t.strip_prefix('"').and_then(|r| r.strip_suffix('"')) {
+        if inner.contains('\\') || inner.contains(',') { tool_error("default string with an escape or a comma"); }
+        o.insert("k".into(), json!("str"));
+        o.insert("cp".into(), json!(inner.chars().map(|c| c as u32).collect::<Vec<_>>()));
+    } else {
+        let n = num_of(t);
+        o.insert("k".into(), json!("num"));
+        for k in ["lit", "neg", "d", "scale"] { o.insert(k.into(), n[k].clone()); }
+    }
+    v
+}
+
+/// The annotated positions; defaults are read back from the compiled schema by introspection.
 fn family() -> Vec<J> {
-    let mut f: Vec<J> = ARGS.iter().map(|(n, t, v)| annotation(n, t, v, "arg")).collect();
-    f.extend(FIELDS.iter().map(|(n, t, v)| annotation(n, t, v, "obj")));
+    let mut f: Vec<J> = ARGS.iter().map(|(n, t, v, d, w)| annotation(n, t, v, d, *w, "arg")).collect();
+    f.extend(FIELDS.iter().map(|(n, t, v, d, w)| annotation(n, t, v, d, *w, "obj")));
+    let schema: S = Schema::build(Query, EmptyMutation, EmptySubscription).finish();
+    let q = "{ i: __type(name: \"In\") { inputFields { name defaultValue } } q: __type(name: \"Query\") { fields { name args { name defaultValue } } } }";
+    let r = futures_executor::block_on(schema.execute(q));
+    if !r.errors.is_empty() { tool_error(&format!("introspection failed: {:?}", r.errors)); }
+    let data = serde_json::to_value(&r.data).unwrap();
+    let mut defaults: std::collections::HashMap<(String, String), String> = std::collections::HashMap::new();
+    for x in data["i"]["inputFields"].as_array().unwrap() {
+        if let Some(d) = x["defaultValue"].as_str() { defaults.insert(("obj".into(), x["name"].as_str().unwrap().into()), d.into()); }
+    }
+    for fld in data["q"]["fields"].as_array().unwrap() {
+        for a in fld["args"].as_array().unwrap() {
+            if a["name"] == "v" { if let Some(d) = a["defaultValue"].as_str() { defaults.insert(("arg".into(), fld["name"].as_str().unwrap().into()), d.into()); } }
+        }
+    }
+    for a in f.iter_mut() {
+        let key = (a["site"].as_str().unwrap().to_string(), a["name"].as_str().unwrap().to_string());
+        let declared = !a["dflt_attr"].as_str().unwrap().is_empty();
+        match (declared, defaults.get(&key)) {
+            (true, Some(d)) => { a["dflt"] = parse_default(d, true); }
+            (false, None) => {}
+            (d, s) => tool_error(&format!("{}: default declared = {d}, schema default = {s:?}", key.1)),
+        }
+    }
     f
 }
 
@@ -234,7 +323,11 @@ fn run_case(strict: &S, fast: &S, fam: &std::collections::HashMap<String, J>, id
     let v = &c["v"];
     let schema = match c["mode"].as_str().unwrap() { "strict" => strict, "fast" => fast, m => tool_error(&format!("unknown mode {m}")) };
     let ty = gql_type(ann["T"].as_str().unwrap(), ann["cont"].as_str().unwrap());
+    let omitted = v["k"] == "omitted";
     let request = match (site, c["route"].as_str().unwrap()) {
+        ("arg", "lit") if omitted => Request::new(format!("{{ {field} }}")),
+        ("obj", "lit") if omitted => Request::new("{ obj(input: {}) }".to_string()),
+        ("arg", "var") if omitted => tool_error("an omitted variable for an argument is not a C08 case"),
         ("arg", "lit") => Request::new(format!("{{ {field}(v: {}) }}", literal(v))),
         ("obj", "lit") => Request::new(format!("{{ obj(input: {{ {field}: {} }}) }}", literal(v))),
         ("arg", "var") => {
@@ -244,14 +337,14 @@ fn run_case(strict: &S, fast: &S, fam: &std::collections::HashMap<String, J>, id
         }
         ("obj", "var") => {
             let mut o = IndexMap::new();
-            o.insert(Name::new(field), to_gql(v));
+            if !omitted { o.insert(Name::new(field), to_gql(v)); }
             let mut m = IndexMap::new();
             m.insert(Name::new("v"), Value::Object(o));
             Request::new("query($v: In!) { obj(input: $v) }".to_string()).variables(Variables::from_value(Value::Object(m)))
         }
         (s, r) => tool_error(&format!("unknown site/route {s}/{r}")),
     };
-    let note = if c["route"] == "lit" { request.query.clone() } else { format!("{} v={}", request.query, to_gql(v)) };
+    let note = if c["route"] == "lit" { request.query.clone() } else if omitted { format!("{} v={{}}", request.query) } else { format!("{} v={}", request.query, to_gql(v)) };
     let expect = if site == "arg" { field } else { "obj" };
     CALLS.with(|l| l.borrow_mut().clear());
     let (mut panic, mut calls, mut errs, mut on_field) = (false, 0usize, 0usize, true);
